@@ -11,7 +11,16 @@ chunking, source alignment and build; one-shot, hex-string and streaming entry p
      SHA-NI, small tables x gcc/clang x -O0/-O2/-O3 in the thorough tier).
 (iii) TLC validates every recorded run (specs/crypto/TraceHash.tla): count/buffer after each update against the stream
      spec at the real block size, and the digests of all three entry points against the TLA+ references
-     Md5/Sha1/Sha256/Sha512/Streebog (themselves validated inside TLC by the RFC 1321 / FIPS 180 / RFC 6986 vectors)."""
+     Md5/Sha1/Sha256/Sha512/Streebog (themselves validated inside TLC by the RFC 1321 / FIPS 180 / RFC 6986 vectors).
+(iv) decomposition for what no message that can be written down reaches - the upper bytes of the length field / byte
+     counters (>= 2^29, 2^32, 2^61, 2^64 ... bytes), Streebog's 512-bit N and Sigma: specs/crypto/HashResume.tla states
+     every hash as a function of the STREAM STATE (chaining value, buffered bytes, byte total as 16-bit limbs) next to the
+     whole-message definitions; TLC proves the two agree (padding identity for every length 0..2B+1 as module ASSUMEs, digest
+     identity HrResumeAgrees on cuts of short messages: "ident" records in every run, MCHashResume exhaustively over the cut
+     kinds); the driver PRIMES a real context after *_init (chaining words, count / count_hi / N / Sigma, buffered bytes),
+     calls update(data) + final in every build, and TLC computes the expected digest from the same state (TraceHash "resume"
+     records).  Totals lie just below / at / above every boundary of each family's length encoding, final tails 0/1/55/56/63
+     (111/112/119/127), shapes: final straight from the primed buffer, fill+flush, fill+bulk+tail."""
 import random
 from concurrent.futures import ThreadPoolExecutor
 from rig import common, hashrig
@@ -113,6 +122,91 @@ def scenarios(ctx, shapes, rnd):
     ctx.add(deterministic_boundary_content_blocks=detblocks)
     return scen, blocks
 
+# ------------------------------------------------------------------ (iv) resumed streams
+def counter_regions(alg):
+    """(label, base, needs_block) per family: byte totals (multiples of the block size) around every boundary of the
+    family's length encoding; needs_block: the boundary is crossed by the counter update of a WHOLE block (carry into the
+    next machine word), so the scenario must compress at least one block after priming.  Labels go into the failure key."""
+    B, _, fam = ALGS[alg]
+    if fam == "gost3411-2012":          # base = N / 8 (N counts bits modulo 2^512, 512 per block)
+        return [("N=2^32", 2**29, False),
+                ("N-carries-into-word1", 2**61 - 64, True),                       # N = 2^64 - 512
+                ("N-carry-chain-2-words", 2**125 - 64, True),                     # N = 2^128 - 512
+                ("N-carry-chain-7-words", 2**509 - 64, True),                     # N = 2^512 - 512, then wraps to 0 (RFC 6986 8.2: modulo 2^512)
+                ("N-all-octets-distinct", (int.from_bytes(bytes(range(1, 65)), "little") >> 9 << 9) // 8, False)]
+    r = [("total<2^29", 2**29 - B, False), ("total>=2^29", 2**29, False), ("total-crosses-2^32", 2**32 - B, True),
+         ("total>=2^35", 2**35 + 5 * B, False),
+         ("bit-count-octets-distinct", (0x0123456789abcdef >> 3) & ~(B - 1), False),
+         ("total<2^61", 2**61 - 3 * B, False)]
+    if fam == "md5":                     # RFC 1321 3.2: only the low-order 64 bits of the bit count are used
+        r += [("total>=2^61(bit-count-wraps)", 2**61 + 2**40, False), ("total-crosses-2^64", 2**64 - B, True)]
+    if fam == "sha2-512":                # 128-bit bit count: count_hi:count
+        r += [("total>=2^61", 2**61, False), ("total-crosses-2^64", 2**64 - B, True), ("total>=2^64", 2**64 + 2**33, False),
+              ("bit-count-16-octets-distinct", (0x0123456789abcdeffedcba9876543210 >> 3) & ~(B - 1), False),
+              ("total<2^125", 2**125 - 3 * B, False)]
+    return r
+
+def resume_scenarios(ctx, rnd):
+    """primed-context scenarios + identity instances; every sibling pair (sha224/256, sha384/512, gost256/512) shares one
+    final function, so the quick tier deals the regions out between the siblings (seeded), the thorough tier runs all"""
+    scen = []; nblocks = {}
+    fam_algs = {}
+    for a, (B, L, fam) in ALGS.items(): fam_algs.setdefault(fam, []).append(a)
+    HLEN = {"md5": 16, "sha1": 20, "sha2-256": 32, "sha2-512": 64, "gost3411-2012": 64}
+    ones512 = 2**512 - 1
+    for fam, algs in fam_algs.items():
+        B, L, _ = ALGS[algs[0]]
+        tails = [0, 1, B - L - 1, B - L, B - 1] + ([119] if B == 128 else [])
+        regions = counter_regions(algs[0])
+        used = 0
+        def add(alg, label, base, blen, dlen, sig):
+            nonlocal used
+            total0 = base + blen
+            s = {"kind": "resume", "alg": alg, "align": rnd.randint(0, 63), "h": hashrig.rbytes(rnd, HLEN[fam]),
+                 "cnt": (8 * base) % 2**512 if fam == "gost3411-2012" else total0, "sig": sig,
+                 "buf": hashrig.rbytes(rnd, blen), "data": hashrig.rbytes(rnd, dlen), "chunks": [], "msg": b"", "key": None,
+                 "label": label}
+            scen.append(s)
+            used += (blen + dlen) // B + 2 + (2 if fam == "gost3411-2012" else 0)
+        def shapes(r, needs_block):
+            """(buffered, data) lengths that leave r bytes for final"""
+            sh = [(B - 1, 1 + r), (3, 2 * B - 3 + r)]                   # fill+flush ; fill+bulk+tail
+            if not needs_block: sh = [(r, 0), (0, r)] + sh               # final straight from the primed buffer ; one small update
+            return sh
+        k = ctx.seed
+        for ri, (label, base, needs_block) in enumerate(regions):
+            sigs = [None]
+            if fam == "gost3411-2012":
+                sigs = [rnd.getrandbits(512), ones512, ones512 - (2**64 - 1) * 2**448 - rnd.getrandbits(60)]   # random / all ones / seven all-ones words
+            if ctx.quick:
+                alg = algs[(ri + k) % len(algs)]
+                r = tails[(ri + k) % len(tails)]
+                sh = shapes(r, needs_block); blen, dlen = sh[(ri // 2 + k) % len(sh)]
+                add(alg, label, base, blen, dlen, sigs[(ri + k) % len(sigs)])
+            else:
+                for alg in algs:
+                    for ti, r in enumerate(tails):
+                        for si, (blen, dlen) in enumerate(shapes(r, needs_block)):
+                            if si >= 2 and (ti + si + ri) % 2: continue          # the two block-compressing shapes alternate
+                            add(alg, label, base, blen, dlen, sigs[(ri + ti + si) % len(sigs)])
+        # instances of the identity between the stream-state and the whole-message formulation (checked by TLC)
+        for alg in algs:
+            for (j, b, d) in ([(1, B - L - 1, 1), (1, B - 1, 1)] if ctx.quick else
+                              [(0, 0, 0), (1, B - L - 1, 1), (1, B - 1, 1), (2, 5, B + 9), (1, B - L, 0)]):
+                m = hashrig.rbytes(rnd, j * B + b + d)
+                scen.append({"kind": "ident", "alg": alg, "m": m, "j": j, "b": b, "chunks": [], "msg": b"", "key": None, "align": 0})
+                used += 2 * ((j * B + b + d) // B + 2 + (3 if fam == "gost3411-2012" else 0))
+        nblocks[fam] = used
+    return scen, nblocks
+
+def model_check_resume(ctx):
+    """thorough tier: the identity exhaustively over all cut kinds (the quick tier checks seeded instances inside TraceHash)"""
+    r = common.tlc("MCHashResume", cfg="MCHashResume.cfg", workers=4, xss="256m", timeout=1500)
+    ctx.tlc_stats(r, "MCHashResume/all cut kinds")
+    if r.rc != 0 or r.distinct != 8 * 2 * 5 * 5:
+        raise common.Infra("HashResume: stream-state formulation disagrees with the whole-message definitions (spec bug, not a code "
+                           "verdict): %s\n%s" % (r.violation, r.out[-3000:]))
+
 def run(ctx):
     ctx.level = "model_checking"
     rnd = random.Random(ctx.seed * 7919 + 4)
@@ -121,15 +215,27 @@ def run(ctx):
         model_check(ctx)
         shapes = hashrig.tlc_shapes(ctx)
         builds = fut.result()
+    if not ctx.quick: model_check_resume(ctx)
     scen, blocks = scenarios(ctx, shapes, rnd)
-    ctx.log("%d scenarios, estimated reference blocks per family: %s" % (len(scen), blocks))
+    rscen, rblocks = resume_scenarios(ctx, rnd)
+    scen += rscen
+    ctx.log("%d scenarios (%d resumed-stream, %d identity instances), estimated reference blocks per family: %s + resumed %s"
+            % (len(scen), sum(s["kind"] == "resume" for s in scen), sum(s["kind"] == "ident" for s in scen), blocks, rblocks))
     paths = hashrig.run_scenarios(ctx, builds, scen, "hash", tlc_timeout=(600 if ctx.quick else 4000))
     nontriv = set((s["alg"], s["msg"], tuple(s["chunks"])) for s in scen if len(s["msg"]) > 0)
+    nontriv |= set((s["alg"], s["h"], s["cnt"], s["buf"], s["data"]) for s in scen if s["kind"] == "resume")
+    reg = {}
+    for s in scen:
+        if s["kind"] == "resume": reg.setdefault(ALGS[s["alg"]][2], set()).add(s["label"])
     ctx.add(distinct_nontrivial=len(nontriv), scenarios=len(scen), builds=[b for b, _ in builds],
-            reference_blocks_evaluated_by_TLC=blocks,
+            reference_blocks_evaluated_by_TLC=blocks, resumed_stream_blocks_evaluated_by_TLC=rblocks,
+            resumed_stream_scenarios=sum(s["kind"] == "resume" for s in scen),
+            identity_instances_checked_by_TLC=sum(s["kind"] == "ident" for s in scen),
+            counter_regions_primed={f: sorted(v) for f, v in reg.items()},
             transform_paths_executed={"%s:%s" % k: v for k, v in sorted(paths.items())},
             alignments_used=sorted(set(s["align"] for s in scen)),
-            samples=[{"alg": s["alg"], "len": len(s["msg"]), "chunks": s["chunks"], "align": s["align"]} for s in scen[:3] + scen[-3:]])
+            samples=[{"alg": s["alg"], "len": len(s["msg"]), "chunks": s["chunks"], "align": s["align"]} for s in scen[:3]] +
+                    [{"alg": s["alg"], "resumed_at": s["label"], "buffered": len(s["buf"]), "data": len(s["data"])} for s in rscen[:3]])
     ctx.cov["rule"] = ("scenario = (algorithm, message, chunking, source alignment) run in every build; non-trivial = non-empty message; "
                        "distinct by (algorithm, message bytes, chunk lengths). Stream model exhaustive at B=4/L=1; digests sampled "
                        "(TLC evaluates the TLA+ reference, budget-sized)")
@@ -137,5 +243,10 @@ def run(ctx):
                         "FIPS 180 and RFC 6986 example digests on every load",
                         "Streebog matrix A and constants C come from a frozen module generated once from the unchanged header and "
                         "validated by the RFC 6986 examples inside TLC",
-                        "digest correctness is sampled (mode C), not exhaustive; messages longer than a few KiB are not evaluated",
+                        "digest correctness is sampled (mode C), not exhaustive; messages longer than a few KiB are not evaluated; "
+                        "positions deep inside a long stream are entered by priming the public context fields (hash, count, count_hi, "
+                        "counter, sigma, buffer, buffer_usage) after *_init, with the invariant the update functions maintain "
+                        "(buffered bytes = count mod block size; Streebog N a multiple of 512)",
+                        "SHA-1/SHA-224/256 totals stay below 2^61 bytes and SHA-384/512 below 2^125 (FIPS 180-4 defines nothing beyond); "
+                        "MD5 is also primed beyond 2^61 / 2^64 bytes (RFC 1321 uses the low-order 64 bits of the bit count)",
                         "a plain x86-64 build without -msse4.1 (only __SSE2__) does not compile sha1.h (_mm_extract_epi32); it is not in the property's build list"]
